@@ -260,7 +260,7 @@ def _dataarray_dims(call: ast.Call) -> list | None:
     return out
 
 
-def _check_dataarrays(ctx, fi, ev: ShapeEval, rule_inst: str, extra_src=None, where=None) -> int:
+def _check_dataarrays(ctx, fi, ev: ShapeEval, rule_inst: str, extra_src=None, where=None, rule="C03-R5") -> int:
     n = 0
     for c in lib.calls(fi):
         if norm(c.func) != "xr.DataArray" or not c.args:
@@ -274,13 +274,13 @@ def _check_dataarrays(ctx, fi, ev: ShapeEval, rule_inst: str, extra_src=None, wh
         if s is not None and s[0] == "list" and s[2] is not None and s[2][0] == "arr":
             s = ("arr", (s[1],) + s[2][1])  # xarray converts a list of arrays like np.array does
         ok = s is not None and s[0] == "arr" and dims is not None and None not in dims and list(s[1]) == dims
-        ctx.ob("C03-R5", f"{rule_inst}:{norm(st.targets[0]) if isinstance(st, ast.Assign) else 'expr'}", ok, fi, st,
+        ctx.ob(rule, f"{rule_inst}:{norm(st.targets[0]) if isinstance(st, ast.Assign) else 'expr'}", ok, fi, st,
                f"axes of the array {show(s)} must equal the declared dims ({', '.join(str(d) for d in dims) if dims else '?'})",
                [f"array: {lib.short(c.args[0], 100)}"])
     return n
 
 
-def r5(ctx) -> None:
+def r5(ctx, rule: str = "C03-R5", full_model_only: bool = False) -> None:
     repo = ctx.repo
     # (a) flattened data / weight
     init = ctx.fn(DAT, "DataProvider.__init__")
@@ -291,13 +291,13 @@ def r5(ctx) -> None:
             if isinstance(t, ast.Subscript) and lib.chain_text(t.value) == attr:
                 v = s.value.body if isinstance(s.value, ast.IfExp) else s.value
                 sh = ev.ev(v, s)
-                ctx.ob("C03-R5", f"DataProvider.__init__/{attr[5:]}-layout", sh == arr(flat("G", "M")), init, s,
+                ctx.ob(rule, f"DataProvider.__init__/{attr[5:]}-layout", sh == arr(flat("G", "M")), init, s,
                        f"the flattened array is global-major: (M,G).T.flatten() = flat(G,M); found {show(sh)}")
     gf = ctx.fn(DAT, "DataProvider.get_from_dataset")
     tests = [n for n in lib.nodes(gf, ast.If) if ".dims" in norm(n.test)]
     ok = any(norm(n.test).replace(" ", "") in ("dataset[name].dims!=(model_dimension,global_dimension)",) and any(
         isinstance(x, ast.Attribute) and x.attr == "T" for x in ast.walk(n)) for n in tests)
-    ctx.ob("C03-R5", "get_from_dataset/model-major", ok, gf, tests[0] if tests else gf.node,
+    ctx.ob(rule, "get_from_dataset/model-major", ok, gf, tests[0] if tests else gf.node,
            "provider arrays are (model, global): transposed exactly when the dataset's dims are not (model_dimension, global_dimension)",
            construct="if dataset[name].dims != (model_dimension, global_dimension): data = data.T")
     # (c) kron order and weight of the full matrix
@@ -316,7 +316,7 @@ def r5(ctx) -> None:
         return None
 
     krons = [c for c in lib.calls(cf, nested=True) if norm(c.func) in ("np.kron", "numpy.kron")]
-    ctx.sites("C03-R5", "kron calls", len(krons), 2)
+    ctx.sites(rule, "kron calls", len(krons), 2)
     for c in krons:
         in_comp = any(isinstance(a, ast.ListComp) for a in lib.ancestors(c, cf.node))
 
@@ -337,20 +337,20 @@ def r5(ctx) -> None:
         want_rows = flat("G", "M")
         want_cols = flat("K", "C")
         ok = sh is not None and sh[0] == "arr" and len(sh[1]) == 2 and sh[1][0] == want_rows and sh[1][1] == want_cols
-        ctx.ob("C03-R5", f"calculate_full_matrices/kron-layout:{'index-dependent' if in_comp else 'index-independent'}", ok, cf, st,
+        ctx.ob(rule, f"calculate_full_matrices/kron-layout:{'index-dependent' if in_comp else 'index-independent'}", ok, cf, st,
                f"rows of the full matrix must be flat(G,M) like the flattened data, columns flat(K,C) like the reshaped clps; found {show(sh)}")
     aws = [c for c in lib.calls(cf) if norm(c.func).endswith("apply_weight")]
     for c in aws:
         ok = len(c.args) == 2 and norm(c.args[0]) == "full_matrix" and "get_flattened_weight(label)" in norm(flc.term(c.args[1], lib.stmt_of(c)).__repr__()) or (
             len(c.args) == 2 and norm(c.args[1]) == "weight" and any(
                 d.kind == "assign" and "get_flattened_weight(label)" in norm(d.value) for d in flc.reaching("weight", lib.stmt_of(c))))
-        ctx.ob("C03-R5", "calculate_full_matrices/weight-layout", ok, cf, lib.stmt_of(c),
+        ctx.ob(rule, "calculate_full_matrices/weight-layout", ok, cf, lib.stmt_of(c),
                "the full matrix (rows flat(G,M)) is weighted with the flattened weight (flat(G,M))")
     ap = ctx.fn(MAT, "MatrixContainer.apply_weight")
     rets = lib.nodes(ap, ast.Return)
     okw = any(norm(r.value).replace(" ", "") in ("(matrix.T*weight).T", "(weight*matrix.T).T", "matrix*weight[:,np.newaxis]", "weight[:,np.newaxis]*matrix",
                                                  "matrix*weight[:,None]", "weight[:,None]*matrix") for r in rets)
-    ctx.ob("C03-R5", "MatrixContainer.apply_weight/row-weights", okw, ap, rets[0] if rets else ap.node,
+    ctx.ob(rule, "MatrixContainer.apply_weight/row-weights", okw, ap, rets[0] if rets else ap.node,
            "row i of the matrix is multiplied by weight i")
     # full model estimation consumes the matching pair
     fm = ctx.fn(EST, "EstimationProviderUnlinked.calculate_full_model_estimation")
@@ -359,12 +359,14 @@ def r5(ctx) -> None:
     for c in cs:
         t0 = repr(flm.term(c.args[0], lib.stmt_of(c))) if c.args else ""
         t1 = repr(flm.term(c.args[1], lib.stmt_of(c))) if len(c.args) > 1 else ""
-        ctx.ob("C03-R5", "calculate_full_model_estimation/pairs-full-matrix-with-flattened-data",
+        ctx.ob(rule, "calculate_full_model_estimation/pairs-full-matrix-with-flattened-data",
                "get_full_matrix" in t0 and "get_flattened_data" in t1, fm, lib.stmt_of(c),
                "the Kronecker matrix is fitted to the flattened (global-major) data of the same dataset")
         tg = lib.stmt_of(c)
         okt = isinstance(tg, ast.Assign) and isinstance(tg.targets[0], ast.Tuple) and [norm(x) for x in tg.targets[0].elts] == ["self._clps[label]", "self._residuals[label]"]
-        ctx.ob("C03-R5", "calculate_full_model_estimation/stores-clp-residual", okt, fm, tg, "(clps, residual) are stored in this order")
+        ctx.ob(rule, "calculate_full_model_estimation/stores-clp-residual", okt, fm, tg, "(clps, residual) are stored in this order")
+    if full_model_only:
+        return
     # (d) unlinked get_result
     gr = ctx.fn(EST, "EstimationProviderUnlinked.get_result")
     flg = lib.flow(gr, repo)
@@ -373,7 +375,7 @@ def r5(ctx) -> None:
         if "has_dataset_model_global_model" in norm(n.test):
             full_if = n
     if full_if is None:
-        ctx.ob("C03-R5", "EstimationProviderUnlinked.get_result/branches", False, gr, gr.node, "full-model / per-index branches not found", construct="def")
+        ctx.ob(rule, "EstimationProviderUnlinked.get_result/branches", False, gr, gr.node, "full-model / per-index branches not found", construct="def")
     else:
         def mk_src(full: bool):
             base = base_sources()
@@ -399,11 +401,11 @@ def r5(ctx) -> None:
         n = 0
         for full, block in ((True, full_if.body), (False, full_if.orelse)):
             evg = ShapeEval(flg, mk_src(full))
-            n += _check_dataarrays(ctx, gr, evg, f"EstimationProviderUnlinked.get_result/{'full' if full else 'per-index'}",
+            n += _check_dataarrays(ctx, gr, evg, f"EstimationProviderUnlinked.get_result/{'full' if full else 'per-index'}", rule=rule,
                                    where=lambda c, block=block: any(lib.is_inside(c, b) for b in block))
             for node, msg in evg.problems:
-                ctx.ob("C03-R5", f"EstimationProviderUnlinked.get_result/{'full' if full else 'per-index'}/layout", False, gr, lib.stmt_of(node), msg)
-        ctx.sites("C03-R5", "DataArray constructions in unlinked get_result", n, 4)
+                ctx.ob(rule, f"EstimationProviderUnlinked.get_result/{'full' if full else 'per-index'}/layout", False, gr, lib.stmt_of(node), msg)
+        ctx.sites(rule, "DataArray constructions in unlinked get_result", n, 4)
     # (e) linked get_result
     gl = ctx.fn(EST, "EstimationProviderLinked.get_result")
     fll = lib.flow(gl, repo)
@@ -418,18 +420,18 @@ def r5(ctx) -> None:
         return None
 
     evl = ShapeEval(fll, src_l)
-    n = _check_dataarrays(ctx, gl, evl, "EstimationProviderLinked.get_result", where=lambda c: "dataset_residual" in norm(c.args[0]))
-    ctx.sites("C03-R5", "residual DataArray in linked get_result", n, 1)
+    n = _check_dataarrays(ctx, gl, evl, "EstimationProviderLinked.get_result", rule=rule, where=lambda c: "dataset_residual" in norm(c.args[0]))
+    ctx.sites(rule, "residual DataArray in linked get_result", n, 1)
     # (f) matrices
     mg = ctx.fn(MAT, "MatrixProvider.get_result")
     txt = norm(mg.node)
     ok = "(model_dimension, model_axis), ('clp_label', matrix_container.clp_labels)" in txt and \
          "((global_dimension, global_axis), matrix_coords[0], matrix_coords[1])" in txt.replace("\n", " ")
-    ctx.ob("C03-R5", "MatrixProvider.get_result/matrix-coords", ok, mg, mg.node,
+    ctx.ob(rule, "MatrixProvider.get_result/matrix-coords", ok, mg, mg.node,
            "matrix coords are (model, clp_label), preceded by global for index dependent matrices (G,M,C)",
            construct="matrix_coords = ((model_dimension, model_axis), ('clp_label', labels)) | ((global_dimension, global_axis), *matrix_coords)")
     okg = "((global_dimension, global_axis), ('global_clp_label', matrix_container.clp_labels))" in txt
-    ctx.ob("C03-R5", "MatrixProvider.get_result/global-matrix-coords", okg, mg, mg.node, "global matrix coords are (global, global_clp_label)",
+    ctx.ob(rule, "MatrixProvider.get_result/global-matrix-coords", okg, mg, mg.node, "global matrix coords are (global, global_clp_label)",
            construct="coords=((global_dimension, global_axis), ('global_clp_label', labels))")
     # (g)/(h) column selection by global position
     cp = ctx.fn(MAT, "MatrixProviderUnlinked.calculate_prepared_matrices")
@@ -442,7 +444,7 @@ def r5(ctx) -> None:
             call = next((x for x in ast.walk(comp.elt) if isinstance(x, ast.Call) and isinstance(x.func, ast.Attribute) and x.func.attr == "create_weighted_matrix"), None)
             if call is not None and call.args and norm(call.args[0]).replace(" ", "") == f"weight[:,{pos}]" and norm(call.func.value) == norm(g.target.elts[1]):
                 okc = True
-    ctx.ob("C03-R5", "calculate_prepared_matrices/weight-column", okc, cp, comps[0] if comps else cp.node,
+    ctx.ob(rule, "calculate_prepared_matrices/weight-column", okc, cp, comps[0] if comps else cp.node,
            "the matrix of global index i is weighted with column i of the (M,G) weight", construct=lib.short(comps[0], 110) if comps else "def")
     ce = ctx.fn(EST, "EstimationProviderUnlinked.calculate_estimation")
     cs = lib.method_calls(ce, "calculate_residual")
@@ -454,7 +456,7 @@ def r5(ctx) -> None:
             if len(c.args) == 2 and norm(c.args[1]).replace(" ", "") == f"data[:,{pos}]" and norm(loop.iter.args[0]) == "global_axis":
                 mc = norm(c.args[0])
                 okd = mc.endswith(".matrix")
-    ctx.ob("C03-R5", "calculate_estimation/data-column", okd, ce, cs[0] if cs else ce.node,
+    ctx.ob(rule, "calculate_estimation/data-column", okd, ce, cs[0] if cs else ce.node,
            "the prepared matrix of global index i is fitted to column i of the (M,G) data", construct=lib.short(lib.stmt_of(cs[0]), 110) if cs else "def")
 
 
